@@ -4,13 +4,12 @@
 # runs the property's check against the copy, prints its verdict, removes the copy.
 set -u
 PATCH=$(readlink -f "$1"); PROP=$2; BUDGET=${3:-40}
-S=/dev/shm/mut_$$; mkdir -p $S
+S=/dev/shm/mut_$$; mkdir -p $S; rm -rf /dev/shm/mut_last; mkdir -p /dev/shm/mut_last
 rsync -a --exclude _build --exclude .git /repo/ $S/repo/
 if ! (cd $S/repo && patch -p1 --no-backup-if-mismatch < "$PATCH" > $S/patch.log 2>&1); then echo "PATCH DOES NOT APPLY"; cat $S/patch.log; rm -rf $S; exit 3; fi
 mkdir -p $S/build
 for v in $(ls /verif/build); do cp -a /verif/build/$v $S/build/; done
 find $S/build -name '*.d' | xargs sed -i "s#/repo/#$S/repo/#g"
-cd /verif && VERIF_REPO=$S/repo VERIF_BUILD=$S/build VERIF_BUDGET_S=$BUDGET python3 vcheck.py $PROP --tier quick 2>&1 | grep -v "^build ok" | cut -c1-400 | tail -12
+cd /verif && VERIF_EVIDENCE_DIR=$S/evidence VERIF_REPLAY_DIR=/dev/shm/mut_last VERIF_REPO=$S/repo VERIF_BUILD=$S/build VERIF_BUDGET_S=$BUDGET python3 vcheck.py $PROP --tier quick 2>&1 | grep -v "^build ok" | cut -c1-400 | tail -12
 echo "exit=${PIPESTATUS[0]}"
-mkdir -p /dev/shm/mut_last && cp -f /verif/replays/$PROP-* /dev/shm/mut_last/ 2>/dev/null
 rm -rf $S
